@@ -38,6 +38,7 @@ theorem PrintsItems.toW : ∀ {its ts}, PrintsItems its ts → PrintsItemsW its 
   | _, _, .nil => .nil
   | _, _, .last h => .juxt (Prints.toW h) .nil
   | _, _, .cons h hr => .comma (Prints.toW h) (PrintsItems.toW hr)
+  | _, _, .juxt h hr _ => .juxt (Prints.toW h) (PrintsItems.toW hr)
 end
 
 section
